@@ -1163,8 +1163,83 @@ fn run_callback_mutation(ops: &[Op]) {
 // survive that.  ops[0] = (kind, n, _): kind % 4 = 0 `repeat n { t.append("...") }`, 1 `repeat n { t[i] = "..." }`,
 // 2 `repeat n { g = nth_row(mk(), 1) }`, 3 `repeat n { g = __to_array(mk()) }` (the argument of a native call) on a small heap.  Afterwards every stored value is read back.
 // The unrepaired code stores pointers to freed strings: the scenario runs in a child process under valgrind.
+// host functions of arity 1-4 registered by the driver: allocate (so that a collection can run), then read their arguments
+fn host_use(vm: &mut Vm<()>, args: &[Value]) -> Result<Value, ExecutionErrorPayload> {
+    for _ in 0..40 { let _ = vm.init_table()?; }
+    let mut n = 0i64;
+    for a in args {
+        if let Some(t) = unsafe { a.as_table() } { n += t.iter().filter(|(_, v)| unsafe { v.as_str() } == Some("a string value that is long enough to matter")).count() as i64; }
+    }
+    Ok(Value::Integer(n))
+}
+fn host1(vm: &mut Vm<()>, a: Value) -> Result<Value, ExecutionErrorPayload> { host_use(vm, &[a]) }
+fn host2(vm: &mut Vm<()>, a: Value, b: Value) -> Result<Value, ExecutionErrorPayload> { host_use(vm, &[a, b]) }
+fn host3(vm: &mut Vm<()>, a: Value, b: Value, c: Value) -> Result<Value, ExecutionErrorPayload> { host_use(vm, &[a, b, c]) }
+fn host4(vm: &mut Vm<()>, a: Value, b: Value, c: Value, d: Value) -> Result<Value, ExecutionErrorPayload> { host_use(vm, &[a, b, c, d]) }
+
+/// kind 4: `t.k1 = 1; ..; t.k14 = 14` with new string keys, read back, under a memory limit that places the collections
+/// differently for every ops[0].1; kinds 5-8: `g = hostN(mk(), .., mk())` -- N temporaries as arguments of a host function
+fn operand_rooting_scenario2(ops: &[Op]) {
+    let kind = ops[0].0 % 9;
+    let text = "a string value that is long enough to matter";
+    if kind == 4 {
+        let fields = 14;
+        let mut cards = vec![Card::set_var("t", CardBody::CreateTable)];
+        for i in 1..=fields { cards.push(Card::set_property(Card::scalar_int(i), Card::read_var("t"), Card::string_card(format!("k{i}")))); }
+        for i in 0..8 { cards.push(Card::set_global_var(format!("filler{i}"), Card::string_card(format!("f{i}")))); }
+        for i in 1..=fields { cards.push(Card::set_global_var(format!("r{i}"), Card::get_property(Card::read_var("t"), Card::string_card(format!("k{i}"))))); }
+        let program = compile(Module { functions: vec![("main".to_string(), Function::default().with_cards(cards))], ..Default::default() }, None).unwrap();
+        let mut bad = vec![];
+        // every 8th limit in a window chosen by ops[0].1: together the windows cover all placements of the collections
+        let lo = 64 + (ops[0].1 % 16) as usize * 1500;
+        for limit in (lo..lo + 1500).step_by(8) {
+            let mut vm = Vm::new(()).unwrap().with_max_iter(100_000);
+            vm.runtime_data.set_memory_limit(limit);
+            if vm.run(&program).is_err() { continue; }
+            for i in 1..=fields {
+                let got = vm.read_var_by_name(&format!("r{i}"), &program.variables).unwrap_or(Value::Nil);
+                if got.as_int() != Some(i) { bad.push(format!("limit {limit}: t.k{i} reads {got:?}")); }
+            }
+        }
+        println!("CHILD finished: {} wrong reads {:?}", bad.len(), &bad[..bad.len().min(3)]);
+        if !bad.is_empty() { std::process::exit(3); }
+        return;
+    }
+    let arity = (kind - 4) as usize;
+    let n = 200 + (ops[0].1 % 8) as i64 * 100;
+    let mut mk = vec![Card::set_var("m", CardBody::CreateTable)];
+    for _ in 0..12 { mk.push(CardBody::AppendTable(cao_lang::compiler::BinaryExpression::new([Card::string_card(text), Card::read_var("m")])).into()); }
+    mk.push(Card::return_card(Card::read_var("m")));
+    let args: Vec<Card> = (0..arity).map(|_| Card::call_function("mk", vec![])).collect();
+    let module = Module {
+        functions: vec![("main".to_string(), Function::default().with_cards(vec![
+            Card::set_global_var("bad", Card::scalar_int(0)),
+            Card::repeat(Card::scalar_int(n), None, Card::composite_card("body", vec![
+                Card::set_global_var("g", Card::call_native(format!("host{arity}"), args)),
+                CardBody::IfTrue(Box::new([
+                    CardBody::NotEquals(cao_lang::compiler::BinaryExpression::new([Card::read_var("g"), Card::scalar_int(12 * arity as i64)])).into(),
+                    Card::set_global_var("bad", Card::read_var("g")),
+                ])).into(),
+            ])),
+        ])), ("mk".to_string(), Function::default().with_cards(mk))],
+        ..Default::default()
+    };
+    let program = compile(module, None).unwrap();
+    let mut vm = Vm::new(()).unwrap().with_max_iter(100_000_000);
+    vm.register_native_function("host1", into_f1(host1)).unwrap();
+    vm.register_native_function("host2", into_f2(host2)).unwrap();
+    vm.register_native_function("host3", into_f3(host3)).unwrap();
+    vm.register_native_function("host4", into_f4(host4)).unwrap();
+    vm.runtime_data.set_memory_limit(96 << 10);
+    let r = vm.run(&program);
+    let bad = vm.read_var_by_name("bad", &program.variables);
+    println!("CHILD finished: {:?}, bad = {bad:?}", r.as_ref().map(|_| ()).map_err(|e| &e.payload));
+    if r.is_ok() && bad.and_then(|b| b.as_int()) != Some(0) { std::process::exit(3); }
+}
+
 fn operand_rooting_scenario(ops: &[Op]) {
-    let kind = ops[0].0 % 4;
+    if ops[0].0 % 9 >= 4 { operand_rooting_scenario2(ops); return; }
+    let kind = ops[0].0 % 9;
     let n = 1000 + (ops[0].1 % 8) as i64 * 500;
     let text = "a string value that is long enough to matter";
     let body: Card = match kind {
@@ -1205,10 +1280,12 @@ fn operand_rooting_scenario(ops: &[Op]) {
 fn run_operand_rooting(ops: &[Op]) {
     if std::env::var("CAO_REPLAY_CHILD").is_ok() { operand_rooting_scenario(ops); return; }
     if let Some(what) = run_child("operand_rooting", ops) {
+        if ops[0].0 % 9 == 4 { fail("operand_rooting", ops, 0, format!("main {{ t = {{}}; t.k1 = 1; .. t.k14 = 14; (8 more strings); r1 = t.k1; .. }} under memory limits {}..{} (every placement of the collections): {what}", 64 + (ops[0].1 % 16) * 1500, 64 + (ops[0].1 % 16) * 1500 + 1500)); }
+        if ops[0].0 % 9 >= 5 { let a = ops[0].0 % 9 - 4; fail("operand_rooting", ops, 0, format!("main {{ repeat {{ g = host{a}(mk(), ..) }} }}: a host function of arity {a} (registered with into_f{a}; it allocates 40 tables, then counts the strings in its arguments) called on temporaries on a 96 KiB heap: {what}")); }
         let n = 1000 + (ops[0].1 % 8) * 500;
         let prog = [format!("t = {{}}; repeat {n} {{ append(t, \"<string literal>\") }}"), format!("t = {{}}; repeat {n} i {{ t[i] = \"<string literal>\" }}"),
                     format!("repeat {n} {{ g = nth_row(mk(), 1) }} on a 64 KiB heap, mk() returning a new table of 12 strings"),
-                    format!("repeat {n} {{ g = __to_array(mk()) }} (a native function called on a temporary) on a 64 KiB heap, mk() returning a new table of 12 strings")][(ops[0].0 % 4) as usize].clone();
+                    format!("repeat {n} {{ g = __to_array(mk()) }} (a native function called on a temporary) on a 64 KiB heap, mk() returning a new table of 12 strings")][(ops[0].0 % 9) as usize].clone();
         fail("operand_rooting", ops, 0, format!("main {{ {prog} }}: {what}"));
     }
 }
@@ -1332,6 +1409,8 @@ fn main() {
     if unit == "operand_rooting" {
         // each shape spawns a child process
         for kind in 0..4u8 { for n in [2u64, 4] { dispatch(unit, &[(kind, n, 0)], 0); } }
+        for w in 0..16u64 { dispatch(unit, &[(4, w, 0)], 0); }
+        for kind in 5..9u8 { dispatch(unit, &[(kind, 2, 0)], 0); }
         println!("OK table instructions kept their operands alive while tables grew");
         return;
     }
